@@ -29,6 +29,26 @@ def modules():
                    [('keypoint', 'kp'), ('target_format', 'str')] + RCS +
                    [('check_validity', 'bool'), ('angle_in_degrees', 'bool')]),
              ]),
+        dict(file='dicaugment/core/keypoints_utils.py', coq_module='Gen_keypoints_proc',
+             requires=['Gen_keypoints_utils'],
+             functions=[
+                 F('check_keypoints', [('keypoints', 'kps')] + RCS, ret='tuple:'),
+                 F('convert_keypoints_to_dicaugment',
+                   [('keypoints', 'kps'), ('source_format', 'str')] + RCS +
+                   [('check_validity', 'bool'), ('angle_in_degrees', 'bool')]),
+                 F('convert_keypoints_from_dicaugment',
+                   [('keypoints', 'kps'), ('target_format', 'str')] + RCS +
+                   [('check_validity', 'bool'), ('angle_in_degrees', 'bool')]),
+                 F('filter', [('data', 'kps')] + RCS, cls='KeypointsProcessor',
+                   self_attrs={'params_remove_invisible': 'bool'}),
+                 F('check', [('data', 'kps')] + RCS, cls='KeypointsProcessor', ret='tuple:'),
+                 F('convert_from_dicaugment', [('data', 'kps')] + RCS, cls='KeypointsProcessor',
+                   self_attrs={'params_format': 'str', 'params_remove_invisible': 'bool',
+                               'params_angle_in_degrees': 'bool'}),
+                 F('convert_to_dicaugment', [('data', 'kps')] + RCS, cls='KeypointsProcessor',
+                   self_attrs={'params_format': 'str', 'params_remove_invisible': 'bool',
+                               'params_angle_in_degrees': 'bool'}),
+             ]),
         dict(file='dicaugment/core/bbox_utils.py', coq_module='Gen_bbox_utils', requires=[],
              functions=[
                  F('normalize_bbox', [('bbox', 'box')] + RCS),
@@ -44,6 +64,23 @@ def modules():
                     ('min_volume', 'Q'), ('min_width', 'Q'), ('min_height', 'Q'), ('min_depth', 'Q')]),
                  F('union_of_bboxes', [('height', 'Z'), ('width', 'Z'), ('depth', 'Z'), ('bboxes', 'boxes'),
                                        ('erosion_rate', 'Q')]),
+             ]),
+        dict(file='dicaugment/core/bbox_utils.py', coq_module='Gen_bbox_proc', requires=['Gen_bbox_utils'],
+             functions=[
+                 F('check_bboxes', [('bboxes', 'boxes')], ret='tuple:'),
+                 F('convert_bboxes_to_dicaugment',
+                   [('bboxes', 'boxes'), ('source_format', 'str')] + RCS + [('check_validity', 'bool')]),
+                 F('convert_bboxes_from_dicaugment',
+                   [('bboxes', 'boxes'), ('target_format', 'str')] + RCS + [('check_validity', 'bool')]),
+                 F('filter', [('data', 'boxes')] + RCS, cls='BboxProcessor',
+                   self_attrs={'params_min_planar_area': 'Q', 'params_min_volume': 'Q',
+                               'params_min_area_visibility': 'Q', 'params_min_volume_visibility': 'Q',
+                               'params_min_width': 'Q', 'params_min_height': 'Q', 'params_min_depth': 'Q'}),
+                 F('check', [('data', 'boxes')] + RCS, cls='BboxProcessor', ret='tuple:'),
+                 F('convert_from_dicaugment', [('data', 'boxes')] + RCS, cls='BboxProcessor',
+                   self_attrs={'params_format': 'str'}),
+                 F('convert_to_dicaugment', [('data', 'boxes')] + RCS, cls='BboxProcessor',
+                   self_attrs={'params_format': 'str'}),
              ]),
         dict(file='dicaugment/augmentations/geometric/functional.py', coq_module='Gen_geom_functional',
              requires=['Gen_keypoints_utils', 'Gen_bbox_utils'],
